@@ -13,7 +13,7 @@ func init() {
 	register(&propertyDef{
 		id:    "C16",
 		title: "preparation is deterministic and insensitive to naming and ordering",
-		rules: []ruleFunc{c16R1, c16R2, c16R3, c16R4, c16R5, c16R6, c16R7},
+		rules: []ruleFunc{c16R1, c16R2, c16R3, c16R4, c16R5, c16R6, c16R7, c16R8},
 		decided: "every iteration over a Go map (range over a map, or over reflect.Value.MapKeys()) in the parse and prepare paths has order-insensitive effects: no outer variable is overwritten with a value derived from the current key/value, no outer slice is appended to without a later sort, no non-error value derived from the current element is returned from inside the loop — except under a len==1 guard or a tabled reason (R1); " +
 			"no ambient nondeterminism (time, random numbers, environment, goroutines) is used in these paths outside the tabled generated-identifier and documented built-in functions (R2); every textual step-path pattern matches all step ids the workflow schema admits and captures exactly the step path (R3, regular-language inclusion). Shared: dependency loops never return early with success, so the graph does not depend on which sibling key was walked first (R4 = C02.R2); nothing is remembered between preparations (R5 = C10.R5).",
 		notDecided: "invariance under consistent renaming of steps beyond the textual patterns of R3; equality of two preparations (needs runs); determinism of dependencies (dgraph, pluginsdk).",
@@ -209,6 +209,53 @@ func c16R1(c *Ctx) {
 			}
 			c.bad(rule, key, pos, ml.how+" with order-sensitive effects: "+strings.Join(problems, "; ")+" — Go randomises map iteration order, so preparing the same workflow twice can give different graphs, schemas or verdicts")
 		}
+	}
+	// "the first element of the map": a range over a map that is left unconditionally in its first iteration is not a
+	// loop at all, but it hands out whichever element the runtime happens to start with
+	for _, fn := range c.parsePrepareFns() {
+		if pkgPathOf(fn) == pkgCmd {
+			continue
+		}
+		k := 0
+		eachInstr(fn, func(r instrRef) {
+			nx, ok := r.I.(*ssa.Next)
+			if !ok || nx.IsString {
+				return
+			}
+			rg, ok := nx.Iter.(*ssa.Range)
+			if !ok {
+				return
+			}
+			if _, isMap := rg.X.Type().Underlying().(*types.Map); !isMap {
+				return
+			}
+			if reachesBlock(r.Block, r.Block) {
+				return // a real loop: handled above
+			}
+			used := false
+			if nx.Referrers() != nil {
+				for _, ref := range *nx.Referrers() {
+					if ex, ok := ref.(*ssa.Extract); ok && ex.Index > 0 && ex.Referrers() != nil && len(*ex.Referrers()) > 0 {
+						used = true
+					}
+				}
+			}
+			if !used {
+				return
+			}
+			k++
+			key := fmt.Sprintf("first-element:%s#%d", c.fnName(fn), k)
+			single := guardedBy(nx, true, func(cond ssa.Value) bool {
+				b, ok := cond.(*ssa.BinOp)
+				if !ok || b.Op != token.EQL {
+					return false
+				}
+				kv, isC := constInt(b.Y)
+				call, isCall := b.X.(*ssa.Call)
+				return isC && kv == 1 && isCall && isBuiltinCall(call, "len")
+			}) != nil
+			c.verdict(single, rule, key, c.instrPos(nx), "the only element of a one-element map", "takes the first element of a map in iteration order (a range left in its first iteration): Go starts map iteration at a random element, so the same workflow text is prepared with a different default, schema or verdict from one preparation to the next")
+		})
 	}
 	c.minCount(rule, "map-ordered loops in the parse/prepare paths", n, 25)
 }
